@@ -130,6 +130,7 @@ var (
 )
 
 // Reset clears the log and sets the root.
+//go:norace
 func Reset(root string) {
 	Root = filepath.Clean(root)
 	Log = nil
@@ -137,6 +138,18 @@ func Reset(root string) {
 	Opens = 0
 }
 
+//go:norace
+// LogLen returns the number of effects logged so far.
+//
+//go:norace
+func LogLen() int { return len(Log) }
+
+// Snapshot returns a copy of the effect log.
+//
+//go:norace
+func Snapshot() []Effect { return append([]Effect(nil), Log...) }
+
+//go:norace
 func rel(p string) (string, bool) {
 	if Root == "" {
 		return "", false
@@ -156,6 +169,7 @@ func rel(p string) (string, bool) {
 	return "", false
 }
 
+//go:norace
 func logEffect(kind, path, path2 string, off int64, data []byte) {
 	r, ok := rel(path)
 	if !ok {
@@ -192,6 +206,7 @@ type File struct {
 	app  bool
 }
 
+//go:norace
 func wrap(f *os.File, name string, flag int) *File {
 	Opens++
 	return &File{f: f, name: name, app: flag&os.O_APPEND != 0}
